@@ -64,6 +64,19 @@ func cacheGen(r *common.Rng, n int, shard int, out *common.Out) {
 				return true
 			})
 		}
+		// a pool without a single acceptable position (e.g. every position of a playout from a curated
+		// start with unreachable material) would make the selection loop below spin for ever: draw a new pool
+		usable := false
+		for k := range pool {
+			if poslib.NaiveInv(&pool[k]) == "" && poslib.MaterialOK(&pool[k]) {
+				usable = true
+				break
+			}
+		}
+		if !usable {
+			i--
+			continue
+		}
 		// same-slot collisions inside the pool are kept adjacent when they exist
 		bySlot := map[uint64][]int{}
 		for k := range pool {
